@@ -216,6 +216,13 @@ def coo_config(h, mesh, trial, test, free=None, inverse=True):
             y = C.dot(x)
             h.equal('C.dot(x) == dense(C) @ x', np.asarray(y), np.array([sum(A[i, j] * x[j] for j in range(ub.N)) for i in range(vb.N)],
                                                                       dtype=object if h.sym_mode else float))
+            Dk = np.array([int(ub.N) - 1, 0])
+            snapx = np.array(x, copy=True)
+            yD = C.dot(x, D=Dk)
+            h.equal('C.dot(x, D) == dense(C) @ x off D, == x on D', np.asarray(yD),
+                    np.array([x[i] if i in (int(ub.N) - 1, 0) else sum(A[i, j] * x[j] for j in range(ub.N)) for i in range(vb.N)],
+                             dtype=object if h.sym_mode else float))
+            h.concrete('dot leaves its operand unchanged', all((a is b_) or (not h.sym_mode and a == b_) for a, b_ in zip(np.asarray(x).ravel(), snapx.ravel())))
         C2 = S.BilinearForm(lambda u, v, w: 5 * u * v.grad[0], dtype=dt).elemental(ub, vb)
         S_ = C + C2
         h.equal('(C1 + C2) dense == C1 dense + C2 dense', dense_from_coo(h, S_, (vb.N, ub.N)), A + dense_from_coo(h, C2))
